@@ -1,148 +1,9 @@
 ------------------------------ MODULE Dispatch ------------------------------
 (***************************************************************************)
-(* The documented operator table of spatialmath (C08) and the length rule  *)
-(* of vectorised operators (C09), as a state machine.                      *)
-(*                                                                         *)
-(* An operand is [c |-> kind, n |-> number of values].  Kinds are the 16   *)
-(* public classes plus the foreign operand kinds Int, Float, Vec (an       *)
-(* array-like vector/matrix of points that conforms to the left operand),  *)
-(* and BadArr (an array that conforms to nothing).                         *)
-(*                                                                         *)
-(* Doc(op, L, R) is transcribed from the docstring tables of               *)
-(* SMPose.__mul__/__truediv__/__add__/__sub__/__eq__, Quaternion,          *)
-(* UnitQuaternion, Twist3/Twist2.__mul__, SpatialVector.__add__/__sub__/   *)
-(* __rmul__, SpatialInertia, Plucker, DualQuaternion and from the          *)
-(* statement of C08.  Outcome kinds:                                       *)
-(*   "obj"(cls)  an object of class cls        "array"  plain ndarray(s)   *)
-(*   "bool"      bool / list of bool           "scalar" a number           *)
-(*   "raise"     must raise                    "unspec" not judged         *)
+(* The operator table of DispatchTable as a state machine: one operator    *)
+(* application (or per-value method call) per behaviour.                    *)
 (***************************************************************************)
-EXTENDS Integers, Sequences, FiniteSets, TLC, Json
-
-Pose2   == {"SO2", "SE2"}
-Pose3   == {"SO3", "SE3"}
-Pose    == Pose2 \cup Pose3
-Quats   == {"Quaternion", "UnitQuaternion"}
-Twists  == {"Twist2", "Twist3"}
-SVec    == {"SpatialVelocity", "SpatialAcceleration", "SpatialForce", "SpatialMomentum"}
-DQuats  == {"DualQuaternion", "UnitDualQuaternion"}
-Classes == Pose \cup Quats \cup Twists \cup SVec \cup {"Plucker", "SpatialInertia"} \cup DQuats
-Scalars == {"Int", "Float"}
-Foreign == Scalars \cup {"Vec", "BadArr"}
-Kinds   == Classes \cup Foreign
-
-ArithOps == {"*", "/", "+", "-", "**", "@"}
-CmpOps   == {"==", "!="}
-LineOps  == {"^", "|"}
-Ops      == ArithOps \cup CmpOps \cup LineOps
-
-\* classes with list behaviour whose operators are vectorised (C09)
-ListOps == Pose \cup Quats \cup Twists
-
-ObjR(c) == [k |-> "obj", cls |-> c]
-ArrR    == [k |-> "array"]
-BoolR   == [k |-> "bool"]
-ScalR   == [k |-> "scalar"]
-RaiseR  == [k |-> "raise"]
-Unspec  == [k |-> "unspec"]
-
-\* ---------------------------------------------------------------------------
-\* object (op) object
-DocObjObj(op, L, R) ==
-  CASE op = "*" ->
-         ( CASE L \in Pose /\ R = L                                  -> ObjR(L)
-             [] L \in Quats /\ R \in Quats ->
-                  IF L = "UnitQuaternion" /\ R = "UnitQuaternion" THEN ObjR("UnitQuaternion")
-                  ELSE ObjR("Quaternion")
-             [] L \in Twists /\ R = L                                -> ObjR(L)
-             [] L = "Twist3" /\ R = "SE3"                            -> ObjR("SE3")
-             [] L = "Twist2" /\ R = "SE2"                            -> ObjR("SE2")
-             [] L = "SE3" /\ R = "Plucker"                           -> ObjR("Plucker")
-             [] L = "Plucker" /\ R = "Plucker"                       -> ScalR
-             [] L \in {"SE3", "Twist3"} /\ R \in SVec                -> ObjR(R)
-             [] L = "SpatialInertia" /\ R = "SpatialAcceleration"    -> ObjR("SpatialForce")
-             [] L = "SpatialInertia" /\ R = "SpatialVelocity"        -> ObjR("SpatialMomentum")
-             [] L = "SpatialAcceleration" /\ R = "SpatialInertia"    -> ObjR("SpatialForce")
-             [] L = "SpatialVelocity" /\ R = "SpatialInertia"        -> ObjR("SpatialMomentum")
-             [] L \in DQuats /\ R \in DQuats ->
-                  IF L = R THEN ObjR(L) ELSE Unspec      \* mixed unit / non-unit: not documented
-             [] OTHER -> RaiseR )
-    [] op = "/" ->
-         ( CASE L \in Pose /\ R = L                                  -> ObjR(L)
-             [] L = "UnitQuaternion" /\ R = "UnitQuaternion"         -> ObjR("UnitQuaternion")
-             [] OTHER -> RaiseR )
-    [] op \in {"+", "-"} ->
-         ( CASE L \in Pose /\ R = L                                  -> ArrR
-             [] L \in Quats /\ R \in Quats                           -> ObjR("Quaternion")
-             [] L \in SVec /\ R = L                                  -> ObjR(L)
-             [] L = "SpatialInertia" /\ R = L /\ op = "+"            -> ObjR(L)
-             [] L = "DualQuaternion" /\ R = L                        -> ObjR(L)
-             [] L \in DQuats /\ R \in DQuats                         -> Unspec
-             [] OTHER -> RaiseR )
-    [] op = "**" -> RaiseR
-    [] op = "@" ->
-         ( CASE L = "SpatialVelocity" /\ R = "SpatialVelocity"       -> ObjR("SpatialAcceleration")
-             [] L = "SpatialVelocity" /\ R \in {"SpatialForce", "SpatialMomentum"}
-                                                                     -> ObjR("SpatialForce")
-             [] OTHER -> RaiseR )
-    [] op \in CmpOps ->
-         ( CASE L \in (Pose \cup Quats \cup Twists \cup {"Plucker"}) /\ R = L -> BoolR
-             [] OTHER -> Unspec )       \* C08 only speaks about operands of one class
-    [] op \in LineOps ->
-         ( CASE L = "Plucker" /\ R = "Plucker"                       -> BoolR
-             [] OTHER -> Unspec )
-
-\* object (op) scalar / array, scalar (op) object
-DocObjForeign(op, L, R) ==
-  CASE R \in Scalars ->
-         ( CASE op \in {"*", "/", "+", "-"} /\ L \in Pose            -> ArrR
-             [] op = "*" /\ L \in Quats                              -> ObjR("Quaternion")
-             [] op = "/" /\ L = "UnitQuaternion"                     -> ObjR("Quaternion")
-             [] op = "*" /\ L \in Twists                             -> ObjR(L)
-             [] op = "**" /\ R = "Int" /\ L \in (Pose \cup Quats)    -> ObjR(L)
-             [] OTHER -> Unspec )
-    [] R = "Vec" ->
-         ( CASE op = "*" /\ L \in (Pose \cup {"UnitQuaternion", "UnitDualQuaternion"}) -> ArrR
-             [] OTHER -> Unspec )
-    [] OTHER -> Unspec
-
-DocForeignObj(op, L, R) ==
-  CASE L \in Scalars ->
-         ( CASE op \in {"*", "+", "-"} /\ R \in Pose                 -> ArrR
-             [] op = "*" /\ R \in Quats                              -> ObjR("Quaternion")
-             [] op = "*" /\ R \in Twists                             -> ObjR(R)
-             [] OTHER -> Unspec )
-    [] OTHER -> Unspec
-
-Doc(op, L, R) ==
-  IF L \in Classes /\ R \in Classes THEN DocObjObj(op, L, R)
-  ELSE IF L \in Classes THEN DocObjForeign(op, L, R)
-  ELSE IF R \in Classes THEN DocForeignObj(op, L, R)
-  ELSE Unspec
-
-\* ---------------------------------------------------------------------------
-\* C09: length rule of vectorised operators
-Err == -1
-BinLen(m, n) == IF m = n THEN m ELSE IF m = 1 THEN n ELSE IF n = 1 THEN m ELSE Err
-Pick(i, m)   == IF m = 1 THEN 1 ELSE i          \* which element of an m-valued operand feeds result i
-
-\* does the operator apply element-wise to sequences for this cell?
-Vectorised(op, L, R) ==
-  /\ L \in ListOps
-  /\ (R \in ListOps \/ R \in Foreign)
-  /\ Doc(op, L, R).k \in {"obj", "array", "bool"}
-
-\* the outcome of  l op r  for operands holding m and n values (n = 1 for foreign operands)
-Outcome(op, L, m, R, n) ==
-  LET dd == Doc(op, L, R) IN
-  IF dd.k \in {"raise", "unspec"} THEN [doc |-> dd, len |-> 0, picks |-> <<>>]
-  ELSE IF m = 0 \/ n = 0 THEN [doc |-> Unspec, len |-> 0, picks |-> <<>>]   \* empty operands: not judged
-  ELSE IF Vectorised(op, L, R) THEN
-         LET k == BinLen(m, n) IN
-         IF k = Err THEN [doc |-> [k |-> "raise", e |-> "ValueError"], len |-> 0, picks |-> <<>>]
-         ELSE [doc |-> dd, len |-> k, picks |-> [i \in 1..k |-> <<Pick(i, m), Pick(i, n)>>]]
-  ELSE IF m = 1 /\ n = 1 THEN [doc |-> dd, len |-> 1, picks |-> << <<1, 1>> >>]
-  ELSE [doc |-> Unspec, len |-> 0, picks |-> <<>>]      \* multi-valued operands of non-vectorised cells
+EXTENDS DispatchTable
 
 \* ---------------------------------------------------------------------------
 \* the state machine: one operator application per step
@@ -160,40 +21,6 @@ Apply(o, L, m, R, n) ==
   /\ (L \in Classes \/ R \in Classes)
   /\ op' = o /\ lft' = [c |-> L, n |-> m] /\ rgt' = [c |-> R, n |-> n]
   /\ out' = Outcome(o, L, m, R, n)
-
-\* ---- per-value (unary) methods named by C09: M values in, M results out, result i from value i
-PerValue(c) ==
-  CASE c = "SO2"            -> {"inv", "R", "theta", "log", "det", "norm"}
-    [] c = "SE2"            -> {"inv", "R", "t", "theta", "xyt", "log", "det", "norm"}
-    [] c = "SO3"            -> {"inv", "R", "rpy", "eul", "log", "det", "norm"}
-    [] c = "SE3"            -> {"inv", "R", "t", "rpy", "eul", "log", "det", "norm"}
-    [] c = "Quaternion"     -> {"conj", "norm", "log"}
-    [] c = "UnitQuaternion" -> {"inv", "conj", "norm", "R", "rpy", "eul", "log"}
-    [] c = "Twist2"         -> {"inv"}
-    [] c = "Twist3"         -> {"inv"}
-    [] OTHER                -> {}
-
-\* explored and reported, not judged (not named by the statement)
-PerValueExtra(c) ==
-  CASE c \in {"SO3", "SE3", "UnitQuaternion"} -> {"angvec"}
-    [] c = "Quaternion"     -> {"unit", "s", "v", "vec", "exp"}
-    [] c = "Twist3"         -> {"v", "w", "theta", "pitch", "pole", "unit", "S", "se3", "exp", "isunit", "isprismatic"}
-    [] c = "Twist2"         -> {"v", "w", "unit", "S", "se2", "exp", "isunit", "isprismatic"}
-    [] OTHER                -> {}
-
-MapOutcome(judged, m) ==
-  IF m = 0 THEN [doc |-> Unspec, len |-> 0, picks |-> <<>>]
-  ELSE [doc |-> IF judged THEN [k |-> "map"] ELSE Unspec, len |-> m, picks |-> [i \in 1..m |-> <<i, i>>]]
-
-\* option variants of the per-value methods: the multi-valued code path must honour them too
-Opts(f) ==
-  CASE f = "rpy"   -> {"", "deg", "xyz", "yxz", "xyz+deg"}
-    [] f = "eul"   -> {"", "deg", "flip"}
-    [] f = "theta" -> {"", "deg"}
-    [] f = "xyt"   -> {"", "deg"}
-    [] f = "log"   -> {"", "twist"}
-    [] OTHER       -> {""}
-AllOpts == {"", "deg", "xyz", "yxz", "xyz+deg", "flip", "twist"}
 
 ApplyUnary(c, f, o, m) ==
   /\ op = "none"
@@ -215,7 +42,6 @@ ApplyInterp(c, k, o) ==
   /\ op' = "interp" /\ lft' = [c |-> c, n |-> 1] /\ rgt' = [c |-> "svec", n |-> k, opt |-> o]
   /\ out' = [doc |-> [k |-> "map"], len |-> k, picks |-> [i \in 1..k |-> <<1, i>>]]
 
-UnaryNames == UNION {PerValue(c) \cup PerValueExtra(c) : c \in ListOps}
 
 Next ==
   \/ \E o \in OpSet : \E L \in LeftKinds : \E R \in RightKinds : \E m \in Lens : \E n \in Lens :
